@@ -342,6 +342,7 @@ def run(ctx):
                    "specifications, the decoder validated against llvm-mc 14 on every byte string of the sweep",
                    "harness h_c07, driver drv_c07, checks/c07.py"],
                theorems=po["theorems"],
+               leanchecker_rc=po.get("leanchecker_rc"),
                generated_theorems=len(gen_thms),
                translated_functions=len(rep["translated"]),
                unmodelled=rep["unmodelled"],
